@@ -1,21 +1,40 @@
+//! vlib: the verification engines. Everything that drives bumpalo at run time is behind the
+//! (default) feature `engines`; the C05 compile-probe engine only needs `runner` and `c05`, so that
+//! a change to bumpalo's public API that stops the run-time engines from compiling cannot mask the
+//! verdict of the compile probes (`cargo build --bin probes --no-default-features`).
+pub mod c05;
 pub mod ledger;
-pub mod types;
-pub mod sim;
-pub mod ops;
-pub mod ops2;
 pub mod runner;
-pub mod arena_eng;
+pub mod types;
 
 #[global_allocator]
 static GLOBAL: ledger::Ledger = ledger::Ledger;
-pub mod multi_eng;
-pub mod celem;
-pub mod vec_eng;
-pub mod str_eng;
-pub mod coll_eng;
-pub mod c19;
-pub mod c16;
+
+#[cfg(feature = "engines")]
+pub mod arena_eng;
+#[cfg(feature = "engines")]
 pub mod box_eng;
-pub mod c18;
-pub mod c05;
+#[cfg(feature = "engines")]
 pub mod c12;
+#[cfg(feature = "engines")]
+pub mod c16;
+#[cfg(feature = "engines")]
+pub mod c18;
+#[cfg(feature = "engines")]
+pub mod c19;
+#[cfg(feature = "engines")]
+pub mod celem;
+#[cfg(feature = "engines")]
+pub mod coll_eng;
+#[cfg(feature = "engines")]
+pub mod multi_eng;
+#[cfg(feature = "engines")]
+pub mod ops;
+#[cfg(feature = "engines")]
+pub mod ops2;
+#[cfg(feature = "engines")]
+pub mod sim;
+#[cfg(feature = "engines")]
+pub mod str_eng;
+#[cfg(feature = "engines")]
+pub mod vec_eng;
